@@ -9,14 +9,17 @@ want = set(base['stable_pass'])
 out = tempfile.mktemp(suffix='.xml', dir='/tmp')
 env = dict(os.environ)
 env.pop('COPULAS_VERIF', None)
+REPO = os.environ.get('BASELINE_REPO', '/repo')
+if REPO != '/repo':
+    env['PYTHONPATH'] = REPO
 jobs = os.environ.get('BASELINE_JOBS', '8')
 cmd = ['/venv/bin/python', '-m', 'pytest', '-q', '-p', 'no:cacheprovider', '--timeout=900',
        '--continue-on-collection-errors', '-n', jobs, '--junitxml=' + out]
-p = subprocess.run(cmd, cwd='/repo', env=env, capture_output=True, text=True)
+p = subprocess.run(cmd, cwd=REPO, env=env, capture_output=True, text=True)
 passed = set()
 for tc in ET.parse(out).getroot().iter('testcase'):
     if not any(c.tag in ('failure', 'error', 'skipped') for c in tc):
-        passed.add(tc.get('classname') + '::' + tc.get('name'))
+        passed.add(tc.get('classname') + '::' + tc.get('name').replace(REPO + '/', '/repo/'))
 os.unlink(out)
 missing = sorted(want - passed)
 
@@ -25,7 +28,7 @@ def nodeid(t):
     cls, name = t.split('::', 1)
     parts = cls.split('.')
     for k in range(len(parts), 0, -1):
-        f = os.path.join('/repo', *parts[:k]) + '.py'
+        f = os.path.join(REPO, *parts[:k]) + '.py'
         if os.path.exists(f):
             return '::'.join([os.path.join(*parts[:k]) + '.py'] + parts[k:] + [name])
     return None
@@ -38,7 +41,7 @@ for t in missing:
     ok = False
     for _ in range(3):
         if nid and subprocess.run(['/venv/bin/python', '-m', 'pytest', '-q', '-p', 'no:cacheprovider', nid],
-                                  cwd='/repo', env=env, capture_output=True).returncode == 0:
+                                  cwd=REPO, env=env, capture_output=True).returncode == 0:
             ok = True
             break
     print('  RETRY %s -> %s' % (t, 'pass' if ok else 'FAIL'))
